@@ -147,19 +147,26 @@ def run_case(run, drv, case_seed):
             hostile = True
         else:
             opts = metas.options(rng, none_p=0.2)
-            m = metas.make_meta(rng, box, opts=opts)
-            # hostile payload name: rename the payload root before creating
-            if kind == "edited":
-                for _ in range(rng.randrange(1, 4)):
-                    apply_request_impl(m["path"], gen_request(rng), rng.random() < 0.3)
-                # an earlier magnet request for the same path in this process, then an edit
-                # that keeps the file length: the next URI must describe the file as it is now
-                impl.edit(m["path"], {"announce": ["http://t.example/announcA"], "comment": "abc"})
-                try:
-                    impl.magnet(m["path"], 0)
-                except Exception:
-                    pass
-                impl.edit(m["path"], {"announce": ["http://t.example/announcB"], "comment": "abd"})
+            try:
+                m = metas.make_meta(rng, box, opts=opts)
+                # hostile payload name: rename the payload root before creating
+                if kind == "edited":
+                    for _ in range(rng.randrange(1, 4)):
+                        apply_request_impl(m["path"], gen_request(rng), rng.random() < 0.3)
+                    # an earlier magnet request for the same path in this process, then an edit
+                    # that keeps the file length: the next URI must describe the file as it is now
+                    impl.edit(m["path"], {"announce": ["http://t.example/announcA"], "comment": "abc"})
+                    try:
+                        impl.magnet(m["path"], 0)
+                    except Exception:
+                        pass
+                    impl.edit(m["path"], {"announce": ["http://t.example/announcB"], "comment": "abd"})
+                refspec.lenient_decode(open(m["path"], "rb").read())
+            except (Exception, impl.CliExit):
+                # creating / editing failed or wrote something that is no metafile: not what C11
+                # judges (C06 / C07 do); there is no metafile to ask a magnet URI for
+                run.case(["setup-raised", case_seed], False, classes=["setup-raised"])
+                return
             raw, path = open(m["path"], "rb").read(), m["path"]
             desc = {"source": kind, "version": m["version"], "opts": sorted(m["opts"]),
                     "creator": m["creator"]}
